@@ -31,15 +31,20 @@ PROPS = {
                      "find_irreducible_Rab must return, and which projection shells a site set admits. After the real symmetrize on random "
                      "Hermitian models: E(gk) = E(k), Berry curvature and spin at gk equal the transformed values for every g of the "
                      "resulting point group (transformations applied by the harness from the specification's (W, time reversal)), "
-                     "X(-R) = X(R)^dagger, centres map onto their images, a second symmetrisation changes nothing (1e-8; observed 1e-12).",
+                     "X(-R) = X(R)^dagger, centres map onto their images, a second symmetrisation changes nothing (1e-8, Berry curvature 1e-5; observed 1e-14 resp. 8e-10).",
                 note="exact in TLA+: groups, site maps, shifts, triple maps, orbits, irreducible sets, shell admissibility. numeric: everything "
                      "about the symmetrised matrices (energies/curvature/spin covariance, Hermiticity, idempotence, centres). Lattices are "
                      "orthogonal (cubic, tetragonal, orthorhombic; hexagonal cells are not modelled), positions have denominator 4, starting "
-                     "centres lie within 0.05 of the atomic sites; k-points with near-degenerate bands are skipped (named in the evidence).",
+                     "centres lie within 0.05 of the atomic sites; k-points with near-degenerate bands are skipped (named in the evidence). Hybrids must be "
+                     "permuted by every operation (SymOrbits!ShellAllowed). FINDING (key System_R.symmetrize:mixed_centres): shells given in the d basis "
+                     "(d, eg) on a polar site whose group mixes dz2 and dx2-y2 (e.g. C3v along [111]) are not symmetrised exactly: centres are "
+                     "treated per orbital, the internal Berry curvature is not covariant and a second symmetrisation moves the centres; "
+                     "reproduction: python -m harness.props._c20_repro.",
                 ref="DESIGN.md 3.7"),
 }
 
 TOL = 1e-8
+TOL_BERRY = 1e-5      # 1/gap^2 amplification at gaps down to 0.01: observed up to 8e-10 on admissible inputs, genuine failures are > 1e-3
 PROJ_SETS = [["s"], ["p"], ["s", "p"], ["sp3"], ["d"], ["t2g"], ["eg"], ["sp3d2"], ["pz"], ["sp2"], ["sp"], ["p2"], ["pxy"], ["s", "d"], ["sp2", "pz"]]
 
 
@@ -246,13 +251,13 @@ def symmetrize_run(rep, st, shells, soc, nprs, counts):
     mixed_class = bool(st["mixed"]) and any(sh in ("d", "eg") for sh in shells)
     res["mixed_class"] = mixed_class
     for nm in ("energy", "berry", "spin", "herm", "centres", "idem"):
-        if res[nm] > TOL:
+        if res[nm] > (TOL_BERRY if nm == "berry" else TOL):
             keyname = "mixed_centres" if (mixed_class and nm in ("berry", "centres", "idem")) else nm
             rep.violation(f"System_R.symmetrize:{keyname}", dict(structure=st["key"], lattice=lattice.tolist(), positions=positions.tolist(), atom_name=names,
                                                             proj=proj, soc=soc, magmom=None if magmom is None else magmom.tolist(),
                                                             kpoint=kpt.tolist(), residuals=res, numpy_seed="see evidence seed"))
     counts["mixed_class"] += int(mixed_class)
-    if res["library_check"] > TOL and max(res["energy"], res["berry"], res["spin"]) <= TOL:
+    if res["library_check"] > TOL_BERRY and max(res["energy"], res["berry"], res["spin"]) <= TOL:
         rep.violation("System.check_symmetry:disagrees", dict(structure=st["key"], proj=proj, soc=soc, residuals=res))
     return res, npoint
 
